@@ -33,13 +33,21 @@ pub(crate) struct CustomTypeParser<'result> {
     /// When we encounter a `FrozenType(...)`, this field is set to true for the duration
     /// of parsing the inner type, and then set back to false.
     frozen_context: bool,
+    /// How many `do_parse` calls are currently nested. The parser is recursive and the type name
+    /// comes from the wire, so the nesting must be bounded not to exhaust the stack.
+    depth: usize,
 }
+
+/// Upper bound on the nesting depth of a custom type name accepted from the wire.
+/// No real schema comes anywhere near this depth.
+const MAX_NESTING_DEPTH: usize = 128;
 
 impl<'result> CustomTypeParser<'result> {
     fn new(input: &'result str) -> CustomTypeParser<'result> {
         Self {
             parser: ParserState::new(input),
             frozen_context: false,
+            depth: 0,
         }
     }
 
@@ -248,6 +256,7 @@ impl<'result> CustomTypeParser<'result> {
         let mut backup = Self {
             parser: self.parser,
             frozen_context: self.frozen_context,
+            depth: self.depth,
         };
 
         // FIXME: Rewrite using std::iter::FromIterator::collect_array after it is stabilized.
@@ -363,6 +372,16 @@ impl<'result> CustomTypeParser<'result> {
     }
 
     fn do_parse(&mut self) -> Result<ColumnType<'result>, CustomTypeParseError> {
+        if self.depth >= MAX_NESTING_DEPTH {
+            return Err(CustomTypeParseError::NestingTooDeep(MAX_NESTING_DEPTH));
+        }
+        self.depth += 1;
+        let result = self.do_parse_nested();
+        self.depth -= 1;
+        result
+    }
+
+    fn do_parse_nested(&mut self) -> Result<ColumnType<'result>, CustomTypeParseError> {
         self.skip_blank();
 
         let mut name = self.read_next_identifier();
